@@ -102,7 +102,32 @@ def missing_policy(o, cfg):
     return o['exit'] == 'raise' and o['exception_class'] == 'RecordingKeyError'
 
 
+def match_scenario(r):
+    mv = r.get('model', {})
+
+    def val(prefix, raw):
+        if mv.get(prefix + '.islist') == 'True':
+            return []
+        if mv.get(prefix + '.isdict') == 'True':
+            if prefix == 'filter' and mv.get('filter.has_operator') == 'True' and mv.get('filter.has_value') == 'True':
+                ov = dec(mv.get('filter.value'))
+                if mv.get('operand.isref') == 'True' or ov == '<object>':
+                    ov = {} if mv.get('operand.isdict') == 'True' else []
+                return {'operator': dec(mv.get('filter.operator')), 'value': ov}
+            return {}
+        x = dec(raw)
+        return [] if x == '<object>' else x
+    return {'filter': val('filter', mv.get('filter')), 'recorded': val('recorded', mv.get('recorded'))}
+
+
 def replay(prop, name, r):
+    if name.startswith('C14/_match_metadata_value/'):
+        scn = match_scenario(r); o = native('native_match.py', scn)
+        rec = {'scenario': scn, 'observed': o}
+        if 'never_raises' in name:
+            rec['clause_holds_on_real_code'] = o['raised'] is None
+            return (o['raised'] is not None), rec
+        return None, rec
     scn = tr_scenario(name, r)
     if scn is None:
         return None, 'no scenario builder for this obligation'
